@@ -98,7 +98,13 @@ class Operation:
     def __eq__(self, value: object) -> bool:
         if not isinstance(value, Operation):
             return False
-        return self.__slots__ == value.__slots__
+        return (
+            self.machines == value.machines
+            and self.duration == value.duration
+            and self.job_id == value.job_id
+            and self.position_in_job == value.position_in_job
+            and self.operation_id == value.operation_id
+        )
 
     def __repr__(self) -> str:
         machines = (
